@@ -8,7 +8,11 @@ Regenerates, from the source text of solve.py:
     cache-mode query file;
   * the decisions `parse_unsat_core(stdout) if args.cache_solver else None` (from_result) and the
     position of the cache shortcut in `solve_end_to_end` (first effectful statement, returns an
-    `unsat` SolverOutput without a core, before any solve_low_level call).
+    `unsat` SolverOutput without a core, before any solve_low_level call);
+  * what `solve_end_to_end` does after a cache miss (first answer, when and how the query is refined
+    and solved again: `gen_e2e_miss`);
+  * a census: the cache is touched by its field, append_unsat_core, the one look-up of
+    solve_end_to_end and check_unsat_cores only (in particular not by solve_low_level).
 Fail-closed: any other shape raises TranslateError.
 """
 import ast
@@ -338,16 +342,122 @@ def tr_solve_end_to_end(tree):
     for s in iff.body[:-1]:
         if not (isinstance(s, ast.Expr) and isinstance(s.value, ast.Call) and isinstance(s.value.func, ast.Name) and s.value.func.id == "verbose"):
             _fail(s, "solve_end_to_end: unexpected statement in the cache-hit branch")
-    return True
+    return tr_e2e_miss(fn, body[idx + 1:])
+
+
+def _is_verbose(s):
+    return isinstance(s, ast.Expr) and isinstance(s.value, ast.Call) and isinstance(s.value.func, ast.Name) and s.value.func.id == "verbose"
+
+
+def tr_e2e_miss(fn, rest):
+    """solve_end_to_end after a cache miss:
+         out1 = solve_low_level(ctx); [result, model = out1.result, out1.model]
+         if <T over result == sat, model.is_valid, ctx.is_refined>:
+             refined_ctx = ctx.refine()
+             if refined_ctx.query.smtlib != query.smtlib: return solve_low_level(refined_ctx)      (out2)
+             [else: verbose(..)]
+         return out1
+       -> gen_e2e_miss (is_sat valid is_refined changed : bool) (out1 out2 : R) : R.
+       The refined query is handed to solve_low_level directly: no second look-up, no second refinement."""
+    ctx = fn.args.args[0].arg
+    rest = [s for s in rest if not _is_verbose(s)]
+    if len(rest) < 3:
+        raise TranslateError("solve_end_to_end: body after the cache check too short")
+    a = rest[0]
+    if not (isinstance(a, ast.Assign) and len(a.targets) == 1 and isinstance(a.targets[0], ast.Name) and ast.unparse(a.value) == f"solve_low_level({ctx})"):
+        _fail(a, "solve_end_to_end: after a miss the query must go to solve_low_level(ctx) first")
+    out1 = a.targets[0].id
+    names = {f"{out1}.result": "result", f"{out1}.model": "model"}   # expression -> role
+    i = 1
+    if isinstance(rest[i], ast.Assign) and isinstance(rest[i].targets[0], ast.Tuple) and isinstance(rest[i].value, ast.Tuple):
+        for t, v in zip(rest[i].targets[0].elts, rest[i].value.elts):
+            u = ast.unparse(v)
+            if not isinstance(t, ast.Name) or u not in (f"{out1}.result", f"{out1}.model"):
+                _fail(rest[i], "solve_end_to_end: unexpected unpacking of the solver output")
+            names[t.id] = "result" if u.endswith(".result") else "model"
+        i += 1
+    iff, ret = rest[i], rest[i + 1] if i + 1 < len(rest) else None
+    if len(rest) != i + 2 or not isinstance(iff, ast.If) or iff.orelse or not (isinstance(ret, ast.Return) and ast.unparse(ret.value) == out1):
+        raise TranslateError("solve_end_to_end: expected `if <needs refinement>: ...` followed by `return <first output>`")
+
+    def role(node):
+        return names.get(ast.unparse(node))
+
+    def test(node):
+        if isinstance(node, ast.BoolOp):
+            op = " && " if isinstance(node.op, ast.And) else " || "
+            return "(" + op.join(test(v) for v in node.values) + ")"
+        if isinstance(node, ast.UnaryOp) and isinstance(node.op, ast.Not):
+            return f"(negb {test(node.operand)})"
+        if isinstance(node, ast.Compare) and len(node.ops) == 1 and isinstance(node.ops[0], (ast.Eq, ast.NotEq)):
+            l, r = node.left, node.comparators[0]
+            if ast.unparse(l) == "sat":
+                l, r = r, l
+            if role(l) == "result" and ast.unparse(r) == "sat":
+                return "is_sat" if isinstance(node.ops[0], ast.Eq) else "(negb is_sat)"
+        if isinstance(node, ast.Attribute) and node.attr == "is_valid" and role(node.value) == "model":
+            return "valid"
+        if ast.unparse(node) == f"{ctx}.is_refined":
+            return "is_refined"
+        _fail(node, "solve_end_to_end: unsupported condition for refinement")
+
+    t = test(iff.test)
+    body = [s for s in iff.body if not _is_verbose(s)]
+    if len(body) != 2:
+        _fail(iff, "solve_end_to_end: refinement arm must be `refined = ctx.refine()` + one `if`")
+    r0, inner = body
+    if not (isinstance(r0, ast.Assign) and isinstance(r0.targets[0], ast.Name) and ast.unparse(r0.value) == f"{ctx}.refine()"):
+        _fail(r0, "solve_end_to_end: expected `<refined> = ctx.refine()`")
+    rname = r0.targets[0].id
+    if not isinstance(inner, ast.If) or any(not _is_verbose(x) for x in inner.orelse):
+        _fail(inner, "solve_end_to_end: expected `if <refined text differs>: return solve_low_level(<refined>)` with at most a message in the else arm")
+    c = inner.test
+    texts = {f"{rname}.query.smtlib", "query.smtlib", f"{ctx}.query.smtlib"}
+    if not (isinstance(c, ast.Compare) and len(c.ops) == 1 and isinstance(c.ops[0], (ast.NotEq, ast.Eq))
+            and {ast.unparse(c.left), ast.unparse(c.comparators[0])} <= texts and f"{rname}.query.smtlib" in (ast.unparse(c.left), ast.unparse(c.comparators[0]))
+            and ast.unparse(c.left) != ast.unparse(c.comparators[0])):
+        _fail(inner, "solve_end_to_end: the inner decision must compare the refined text with the original")
+    changed = "changed" if isinstance(c.ops[0], ast.NotEq) else "(negb changed)"
+    ib = [s for s in inner.body if not _is_verbose(s)]
+    if len(ib) != 1 or not (isinstance(ib[0], ast.Return) and ast.unparse(ib[0].value) == f"solve_low_level({rname})"):
+        _fail(inner, "solve_end_to_end: the refined query must be answered by `return solve_low_level(<refined>)`")
+    return f"if {t} then (if {changed} then out2 else out1) else out1"
+
+
+def census(tree):
+    """Who touches the cache in solve.py: the field, its one writer (FunctionContext.append_unsat_core), its one
+    reader (the look-up at the head of solve_end_to_end) and check_unsat_cores itself.  In particular
+    solve_low_level -- the door of the consumers that pose their query un-refined (T-cacheusers) -- does not."""
+    allowed = {("SolvingContext",), ("FunctionContext", "append_unsat_core"), ("solve_end_to_end",), ("check_unsat_cores",)}
+    names = {"check_unsat_cores", "unsat_cores", "append_unsat_core"}
+
+    def go(node, path):
+        for c in ast.iter_child_nodes(node):
+            p = path + (c.name,) if isinstance(c, (ast.FunctionDef, ast.AsyncFunctionDef, ast.ClassDef)) else path
+            hit = (isinstance(c, ast.Name) and c.id in names) or (isinstance(c, ast.Attribute) and c.attr in names)
+            if hit and path not in allowed:
+                raise TranslateError(f"line {c.lineno}: the unsat-core cache is used in `{'.'.join(path) or '<module>'}`: {ast.unparse(c)[:120]}")
+            go(c, p)
+
+    go(tree, ())
+    fn = find_function(tree, "append_unsat_core", cls="FunctionContext")
+    body = strip_docstring(list(fn.body))
+    if len(body) != 1 or ast.unparse(body[0]) != f"self.solving_ctx.unsat_cores.append({fn.args.args[1].arg})":
+        raise TranslateError("append_unsat_core: expected `self.solving_ctx.unsat_cores.append(<core>)`")
+    e2e = find_function(tree, "solve_end_to_end")
+    reads = [n for n in ast.walk(e2e) if isinstance(n, ast.Attribute) and n.attr == "unsat_cores"]
+    if len(reads) != 1:
+        raise TranslateError(f"solve_end_to_end: {len(reads)} reads of unsat_cores, expected the one look-up")
 
 
 def translate(src_text):
     tree = ast.parse(src_text)
+    census(tree)
     check = tr_check_unsat_cores(tree)
     pattern, sub_pat, sub_repl, group_no = tr_parse_unsat_core(tree)
     pieces, file_parts = tr_dump(tree)
     tr_from_result(tree)
-    tr_solve_end_to_end(tree)
+    e2e_miss = tr_solve_end_to_end(tree)
     lines = [
         "(* GENERATED by translate/t_unsatcore.py from src/halmos/solve.py -- do not edit *)",
         "From Coq Require Import ZArith List Bool.",
@@ -372,6 +482,11 @@ def translate(src_text):
         f"Definition gen_file_head : list Z := {codepoints(file_parts[0])}.",
         f"Definition gen_file_mid : list Z := {codepoints(file_parts[1])}.",
         f"Definition gen_file_tail : list Z := {codepoints(file_parts[2])}.",
+        "",
+        "(* solve_end_to_end after a cache miss: out1 = solve_low_level(ctx); is_sat / valid describe out1; is_refined = ctx.is_refined;",
+        "   changed = refine() altered the query text; out2 = solve_low_level(ctx.refine()) -- no second look-up *)",
+        "Definition gen_e2e_miss {R : Type} (is_sat valid is_refined changed : bool) (out1 out2 : R) : R :=",
+        f"  {e2e_miss}.",
         "",
         "(* SolverOutput.from_result: the core is parsed only in the `unsat` case and only if cache_solver *)",
         "Definition gen_core_of_reply {A : Type} (cache_solver : bool) (parsed : option A) : option A :=",
